@@ -42,7 +42,8 @@ RULE = ("well-formed templates from a grammar-directed generator (text runs incl
         "triple-quoted strings and long trailing whitespace, def/block/call/page/include/namespace/inherit/text tags "
         "single- and multi-line with attribute values spanning lines, ## and <%doc> comments; LF or CRLF; leading blank "
         "lines) into which exactly ONE fault is planted at every candidate site: a Python syntax error at every binary "
-        "operator of every code line of every construct (10 construct kinds), 26 structural fault classes and 6 classes of "
+        "operator of every code line of every construct (10 construct kinds), 29 structural fault classes (one or more per raise site of SyntaxException / CompileException in lexer, "
+        "parsetree, codegen, pyparser, ast - the site table is regenerated and checked against the generator) and 6 classes of "
         "faults that only the compilation of the generated module finds, at every "
         "tag / control block / line gap; a case is distinct by (source text, fault); non-trivial = the fault is not on "
         "line 1 column 1")
@@ -54,6 +55,8 @@ ASSUMPTIONS = [
     "a control line construct (`% …`) begins at the start of its line (the lexer's regex includes the indentation), so "
     "its column is 1",
     "a template given as a string has no file name: filename None is accepted on the string path",
+    "`from m import *` in a block is not a syntax error but an unsupported construct: its ground truth is where the "
+    "block begins (the coordinates every constructor-level fault carries), not the line of the import statement",
     "reload paths: the edited file gets an mtime 60 s in the future (os.utime), so that the lookup's whole-second "
     "comparison `_modified_time >= mtime` certainly sees it as newer; the good first version is rendered once "
     "directly and once through the including parent before the edit",
@@ -69,7 +72,7 @@ TRUSTED_EXTRA = [
     "C11: pygments' HTML formatter output shape (class 'error syntax-highlighted', span.normal = line number) when "
     "pygments is installed",
 ]
-REGEN = ["Unicode", "LexerCfg", "ErrPos"]
+REGEN = ["Unicode", "LexerCfg", "ErrPos"]   # ErrPos: handlers of TemplateLookup._check + every raise site of a compile-time exception
 DRIVER_OPS = ["errpos"]
 
 LEXER_CLASSES = {
@@ -80,7 +83,11 @@ LEXER_CLASSES = {
     "keyword-mismatch": "keyword-mismatch", "illegal-ternary": "illegal-ternary",
     "unterminated-control": "unterminated-control",
 }
-CODEGEN_CLASSES = {"duplicate-block", "named-block-in-def", "named-block-in-call"}
+CODEGEN_CLASSES = {"duplicate-block", "named-block-in-def", "named-block-in-call", "anon-block-in-namespace"}
+# generator class -> the class name the model's raise-site table uses (several generator classes share one raise site)
+SITE_GROUP = {"unterminated-expr": "unterminated-construct", "unterminated-filter": "unterminated-construct",
+              "unterminated-block": "unterminated-construct", "named-block-in-def": "named-block-in-def-or-call",
+              "named-block-in-call": "named-block-in-def-or-call"}
 ATTR_LABELS = ("sigdef", "sigargs", "attrexpr", "callexpr", "dummyargs", "arglist")
 SYNTAX_EXC_CLASSES = {"python", "unterminated-expr", "unterminated-filter", "unterminated-block", "unclosed-tag",
                       "unclosed-text-tag", "closing-without-opening", "closing-mismatch", "invalid-control-line",
@@ -149,7 +156,7 @@ class Impl:
              "mako": self.is_mako_compile_error(e),
              "lineno": getattr(e, "lineno", None), "pos": getattr(e, "pos", None),
              "filename": getattr(e, "filename", None), "source": getattr(e, "source", None), "msg": str(e),
-             "raised_in": os.path.basename(inner), "k": getattr(cause, "lineno", None) if cause is not None else None,
+             "raised_in": os.path.basename(inner), "raised_fn": tb[-1].name if tb else "", "k": getattr(cause, "lineno", None) if cause is not None else None,
              "cause": type(cause).__name__ if cause is not None else None,
              "last_call": calls[-1] if calls else None, "ncalls": len(calls) if calls is not None else None,
              "nodes": nodes}
@@ -463,6 +470,64 @@ def model_requests(f, d):
     return reqs
 
 
+_SITES = None
+
+
+def raise_sites(ctx):
+    """the regenerated raise sites with the class the model assigns: [(file, function, prefix, coords, class, regex)]"""
+    global _SITES
+    if _SITES is None:
+        resp = ctx.driver().ask("errpos sites")
+        out = []
+        for item in resp.split(" "):
+            f = [dec(x) for x in item.split(";")]
+            # the message prefix is a %-format: turn it into a regex on the formatted message
+            rx = ""
+            i = 0
+            pre = f[2]
+            while i < len(pre):
+                if pre[i] == "%" and i + 1 < len(pre):
+                    rx += "%" if pre[i + 1] == "%" else ".*?"
+                    i += 2
+                elif pre[i] == "%":
+                    i += 1
+                else:
+                    rx += re.escape(pre[i])
+                    i += 1
+            out.append((f[0], f[1], f[2], f[3], f[4], re.compile(rx, re.S)))
+        _SITES = out
+    return _SITES
+
+
+def site_class_of(ctx, d):
+    """the model's class for the raise site that fired (file + function of the innermost frame + message)"""
+    hits = [s for s in raise_sites(ctx)
+            if os.path.basename(s[0]) == d.get("raised_in") and s[1].split(".")[-1] == d.get("raised_fn")
+            and s[5].match(d.get("msg", ""))]
+    return sorted(set(s[4] for s in hits))
+
+
+def check_site_table(ctx):
+    """the model's table against the generator: every class it names is planted, every planted class has a site"""
+    st = ctx.stream("raise-sites", "corr", exhaustive=True)
+    sites = raise_sites(ctx)
+    named = set()
+    for s in sites:
+        st["cases"] += 1
+        ctx.branch("raise-site:" + s[4].split(":")[0])
+        if s[4].startswith("outside:"):
+            continue
+        named.add(s[4])
+        ok = s[4] == "python" or s[4] in G.STRUCTURAL_CLASSES or s[4] in SITE_GROUP.values()
+        if s[4] == "?" or not ok:
+            ctx.disagree("raise-sites", {"site": list(s[:4])}, s[4], "no such fault class in the generator")
+        if s[3] not in ("self", "param", "self+override", "adjusted", "explicit"):
+            ctx.disagree("raise-sites", {"site": list(s[:4])}, "coordinates of its own node", s[3])
+    for c in G.STRUCTURAL_CLASSES:
+        if SITE_GROUP.get(c, c) not in named:
+            ctx.disagree("raise-sites", {"class": c}, "no raise site", "planted by the generator")
+
+
 def err_kind(msg):
     from harness.lexmodel import err_kind as ek
     return ek(msg)
@@ -473,6 +538,12 @@ def compare_model(ctx, f, d, answers):
     out = []
     cls = f["cls"]
     impl_pos = (d.get("cls"), d.get("lineno"), d.get("pos"))
+    if d.get("mako"):
+        got = site_class_of(ctx, d)
+        want = SITE_GROUP.get(cls, cls)
+        if got != [want]:
+            out.append(("raise-site-class", got, "%s (raised in %s:%s: %s)" % (want, d.get("raised_in"), d.get("raised_fn"),
+                                                                         d.get("msg", "")[:60])))
     if cls == "python":
         node = answers["node"].split(" ")
         if node[0] != "ok" or node[1] != "S":
@@ -795,6 +866,14 @@ def witness_cases():
     W.append({"cls": "unclosed-tag", "src": s, "construct": G._truth(s, 4), "line": 2, "tag": "def"})
     s = "abc\n ${x | h\nyy"
     W.append({"cls": "unterminated-filter", "src": s, "construct": G._truth(s, 5), "line": 2, "bar": G._truth(s, s.index("|"))})
+    # every raise site at a position where the offending construct is not on the line of the enclosing construct
+    s = "top\n<%namespace name='nsw'>\n  <%def name='dw()'>x</%def>\n\n     <%block>\nanon\n</%block>\n</%namespace>\n"
+    W.append({"cls": "anon-block-in-namespace", "src": s, "construct": G._truth(s, s.index("<%block")),
+              "line": G.line_of(s, s.index("<%block"))})
+    s = "one\n  <%namespace name='nsv' file='/x.html'\n     module='os.path'/>\n"
+    W.append({"cls": "namespace-file-and-module", "src": s, "construct": G._truth(s, s.index("<%namespace")), "line": 2})
+    s = "one\ntwo\n   <%\n      v0 = 1\n      from os import *\n%>\n"
+    W.append({"cls": "import-star", "src": s, "construct": G._truth(s, s.index("<%")), "line": 3})
     for sub, s, off in [("expr-trailing-comment", "t\n${x # c}", 2), ("block-break-outside-loop", "t\n  <% break %>", 4),
                         ("module-block-return", "<%! return %>", 0)]:
         W.append({"cls": "module-level", "sub": sub, "src": s, "construct": G._truth(s, off), "line": G.line_of(s, off)})
@@ -806,6 +885,10 @@ def run(ctx):
     impl = Impl()
     try:
         ws = witness_cases()
+        try:
+            check_site_table(ctx)
+        except Exception as e:
+            ctx.broke("correspondence:raise-sites", repr(e))
         run_faults(ctx, impl, ws, "witnesses-model", "witnesses-oracle", 1, 1, 1)
         if ctx.quick:
             plan = [(80, 30, 1)]
